@@ -129,7 +129,7 @@ def n_anns(case):
 # kinds on which (array length=n) is valid, used for the length-parameter family
 LEN_KINDS = ['intp', 'strv', 'rec', 'ptrarray']
 LEN_ARRAYS = [['array length=n'], ['out', 'array length=n'], ['inout', 'array length=n']]
-LEN_ANNS = ['@n optional', '@n nullable', '@n not optional', '@n skip', '@n transfer none']
+LEN_ANNS = ['@n optional', '@n nullable', '@n not optional', '@n skip', '@n transfer none', '@n out', '@n inout']
 
 
 # annotations offered on the return value of a constructor (type-changing ones would undo the pairing)
